@@ -16,6 +16,7 @@ pkg = [x for x in mm if x != "..."][-1] if mm else None
 if len(sys.argv) > 3: pkg = sys.argv[3]
 run = re.search(r"-run[ =]'?\"?([^\s'\"]+)", cmd)
 runpat = run.group(1) if run else "."
+race = "-race " if "-race" in cmd else ""  # demonstrations of data races need the detector
 if not pkg or not demos:
     print("CANNOT-PARSE", cmd, demos); sys.exit(2)
 sh("git checkout -- . && git clean -fdq")
@@ -28,10 +29,10 @@ def unplace():
 res = {}
 rc, out = sh(f"git apply {sd}/patch.diff")
 if rc != 0: print("PATCH-FAILS", out); sys.exit(2)
-place(); rc1, o1 = sh(f"go test -vet=off -count=1 -run '{runpat}' ./{pkg}/"); unplace()
+place(); rc1, o1 = sh(f"go test {race}-vet=off -count=1 -run '{runpat}' ./{pkg}/"); unplace()
 rc2, o2 = sh("go test -vet=off -count=1 ./...")
 sh("git checkout -- . && git clean -fdq")
-place(); rc3, o3 = sh(f"go test -vet=off -count=1 -run '{runpat}' ./{pkg}/"); unplace()
+place(); rc3, o3 = sh(f"go test {race}-vet=off -count=1 -run '{runpat}' ./{pkg}/"); unplace()
 sh("git checkout -- . && git clean -fdq")
 ok = rc1 != 0 and rc2 == 0 and rc3 == 0
 print(f"{pid} {m}: demo-with-patch rc={rc1} suite-with-patch rc={rc2} demo-without rc={rc3} => {'CONFIRMED' if ok else 'NOT-CONFIRMED'}")
